@@ -119,6 +119,7 @@ func main() {
 			fmt.Printf("CHECKER-FAILURE property=%s only %d module packages loaded (expected >= 14)\n", prop, len(p.Pkgs))
 			os.Exit(2)
 		}
+		curProg = p
 		c := &Ctx{P: p, Prop: prop, Tier: *tier}
 		c.runRules(rs)
 		extra := map[string]any{}
@@ -128,8 +129,10 @@ func main() {
 			if err != nil {
 				c.failures = append(c.failures, "GOARCH=386 configuration: "+err.Error())
 			} else {
+				curProg = p2
 				c2 := &Ctx{P: p2, Prop: prop, Tier: *tier}
 				c2.runRules(rs)
+				curProg = p
 				for _, o := range c2.obs {
 					o.Key = "[GOARCH=386] " + o.Key
 					c.obs = append(c.obs, o)
@@ -181,7 +184,7 @@ func writeFailEvidence(verif, prop, tier string, seed int64, start time.Time, ms
 }
 
 func init() {
-	claim("C04", "W1", "M1", "F1", "F2", "F3", "W2", "W4", "W5")
+	claim("C04", "W1", "M1", "F1", "F2", "F3", "W2", "W4", "W5", "W6")
 }
 
 func init() {
@@ -193,7 +196,7 @@ func init() {
 }
 
 func init() {
-	claim("C05", "W1", "M1", "M2", "F1", "F2", "W5", "ZONCE", "W3", "TC", "S3")
+	claim("C05", "W1", "M1", "M2", "F1", "F2", "W5", "W6", "ZONCE", "W3", "TC", "S3")
 }
 
 func init() {
@@ -201,7 +204,7 @@ func init() {
 }
 
 func init() {
-	claim("C16", "L1", "L2", "L3", "L5", "Z1", "Z2", "Z4", "ZONCE")
+	claim("C16", "L1", "L2", "L3", "L5", "L6", "Z1", "Z2", "Z4", "ZONCE")
 }
 
 func init() {
